@@ -181,15 +181,46 @@ Qed.
 
 Definition storing (g : rule) : bool :=
   match g with
-  | RPol PPython | RPol (PAny _) | RPol (PTyped _ _) | RPol (PReadOnly _) | RDunder => true
+  | RPol PPython | RPol (PAny _) | RPol (PTyped _ _) | RPol (PReadOnly _) | RDunder
+  | RPol (PMap _ _) | RPol (PShadow _) => true
   | _ => false
   end.
 
-(* the trigger of the listed finding: add_trait of a policy that stores nothing on a
-   name whose value is already in obj.__dict__ *)
+(* plain = not a mapped trait (Map) nor its shadow: the traits Part 3 reasons about; mapped
+   traits are covered by Part 9 and by the correspondence *)
+Definition plain_tab (l : list (name * policy)) : bool := forallb (fun e => plainp (snd e)) l.
+
+Lemma plain_assoc : forall l n p, plain_tab l = true -> assoc n l = Some p -> plainp p = true.
+Proof.
+  induction l as [|[k v] r IH]; intros n p H E; simpl in *; try discriminate.
+  apply andb_true_iff in H. destruct H as [H1 H2].
+  destruct (name_eqb k n); [inversion E; subst; auto|eauto].
+Qed.
+Lemma plain_aset : forall l n p, plain_tab l = true -> plainp p = true -> plain_tab (aset n p l) = true.
+Proof.
+  induction l as [|[k v] r IH]; intros n p H Hp; simpl in *; [rewrite Hp; reflexivity|].
+  apply andb_true_iff in H. destruct H as [H1 H2].
+  destruct (name_eqb k n); simpl; [rewrite Hp, H2; reflexivity|rewrite H1, IH; auto].
+Qed.
+Lemma plain_adel : forall l n, plain_tab l = true -> plain_tab (adel n l) = true.
+Proof.
+  induction l as [|[k v] r IH]; intros n H; simpl in *; auto.
+  apply andb_true_iff in H. destruct H as [H1 H2].
+  destruct (name_eqb k n); simpl; [auto|rewrite H1, IH; auto].
+Qed.
+Lemma plain_first_match : forall l n q p, plain_tab l = true -> first_match n l = Some (q, p) -> plainp p = true.
+Proof.
+  induction l as [|[k v] r IH]; intros n q p H E; simpl in *; try discriminate.
+  apply andb_true_iff in H. destruct H as [H1 H2].
+  destruct (is_prefix k n); [inversion E; subst; auto|eauto].
+Qed.
+
+(* excluded by [clean_run]: the trigger of the first listed finding (add_trait of a policy that
+   stores nothing on a name whose value is already in obj.__dict__), and add_trait of a mapped
+   trait (treated in Part 9) *)
 Definition clean_step (s : state) (o : op) : bool :=
   match o with
-  | OAdd n p => storing (RPol p) || negb (amem n (s_od s))
+  | OAdd n p => plainp p && (storing (RPol p) || negb (amem n (s_od s)))
   | _ => true
   end.
 
@@ -221,8 +252,29 @@ Section Run.
     inv_od : forall m, assoc m (l_od ls) = assoc m (s_od s);
     inv_c1 : forall m p, assoc m ct0 = Some p -> assoc m (s_ctd s) = Some p;
     inv_c2 : forall m p, assoc m (s_ctd s) = Some p -> rel (model_rule m) p;
-    inv_st : forall m v, assoc m (s_od s) = Some v -> storing (gov s m) = true
+    inv_st : forall m v, assoc m (s_od s) = Some v -> storing (gov s m) = true;
+    inv_plain : plain_tab ct0 && plain_tab pt && plain_tab (s_itd s) && plain_tab (s_ctd s) = true
   }.
+
+  Lemma inv_plain4 : forall s ls, Inv s ls ->
+    plain_tab ct0 = true /\ plain_tab pt = true /\ plain_tab (s_itd s) = true /\ plain_tab (s_ctd s) = true.
+  Proof.
+    intros s ls H. pose proof (inv_plain _ _ H) as P.
+    apply andb_true_iff in P. destruct P as [P P4]. apply andb_true_iff in P. destruct P as [P P3].
+    apply andb_true_iff in P. destruct P as [P1 P2]. auto.
+  Qed.
+  Lemma plain4 : forall a b c d, plain_tab a = true -> plain_tab b = true -> plain_tab c = true -> plain_tab d = true ->
+    plain_tab a && plain_tab b && plain_tab c && plain_tab d = true.
+  Proof. intros a b c d -> -> -> ->. reflexivity. Qed.
+  Lemma model_rule_plain : plain_tab ct0 = true -> plain_tab pt = true ->
+    forall n p, rel (model_rule n) p -> plainp p = true.
+  Proof.
+    intros H0 Hp n p [E|[_ ->]]; [|reflexivity]. revert E. unfold model_rule.
+    destruct (assoc n ct0) eqn:E0; [intro E; inversion E; subst; exact (plain_assoc _ _ _ H0 E0)|].
+    destruct (dunder n); simpl; [discriminate|].
+    destruct (first_match n pt) as [[q p1]|] eqn:Ef; simpl; [|discriminate].
+    intro E. inversion E; subst. exact (plain_first_match _ _ _ _ Hp Ef).
+  Qed.
 
   Lemma governing_gov : forall s ls n, Inv s ls -> governing model_rule ls n = gov s n.
   Proof. intros s ls n H. unfold governing, gov. rewrite (inv_itd _ _ H). reflexivity. Qed.
@@ -252,7 +304,7 @@ Section Run.
     class_ok (fst d) (o_out ob) = true /\ value_ok (fst d) (o_out ob) = true /\
     stored_ok (snd d) (o_stored ob) = true.
   Proof.
-    intros s n p g v [->|[-> ->]]; [destruct p as [ |d| |d|c|k|k d]|]; simpl; try (fin; fail).
+    intros s n p g v [->|[-> ->]]; [destruct p as [ |d| |d|c|k|k d|m d|m]|]; simpl; try (fin; fail).
     - (* ReadOnly *)
       destruct (negb (Z.eqb d VUndef)); simpl; [fin|].
       unfold defined. destruct (assoc n (s_od s)) as [w|] eqn:E; [destruct (Z.eqb w VUndef)|]; fin.
@@ -345,6 +397,7 @@ Section Run.
       + apply name_eqb_eq in E. subst m. eauto.
       + assert (m <> n) by (intro; subst; rewrite name_eqb_refl in E; discriminate).
         rewrite Hf in Hm by auto. eapply inv_st; eauto.
+    - rewrite Hi, Hc. apply (inv_plain _ _ H).
   Qed.
 
   Definition ctd_ext (s s1 : state) (n : name) : Prop :=
@@ -364,6 +417,9 @@ Section Run.
       rewrite assoc_aset in Hm. destruct (name_eqb n m) eqn:E; [|eapply inv_c2; eauto].
       apply name_eqb_eq in E. subst m. inversion Hm; subst. exact Hr.
     - intros m v Hm. unfold gov. rewrite Hi. fold (gov s m). rewrite Ho in Hm. eapply inv_st; eauto.
+    - destruct (inv_plain4 _ _ H) as (P1 & P2 & P3 & P4). rewrite Hi. apply plain4; auto.
+      destruct Hc as [->|(Hn & q & -> & Hr)]; auto. apply plain_aset; auto.
+      eapply model_rule_plain; eauto.
   Qed.
 
   Lemma ct0_none : forall s ls n, Inv s ls -> assoc n (s_ctd s) = None -> assoc n ct0 = None.
@@ -398,13 +454,74 @@ Section Run.
     destruct (dunder n); [discriminate|]. destruct (first_match n pt) as [[q p1]|]; [discriminate|auto].
   Qed.
 
+  (* the look-up and handlers of Model.step for plain traits, and the law's bookkeeping for them *)
+  Definition step_p (s : state) (o : op) : state * obs :=
+    match o with
+    | OGet n =>
+        match assoc n (s_od s) with
+        | Some v => out s n (Val v)
+        | None =>
+            match assoc n (s_itd s) with
+            | Some p => getattr s n p
+            | None =>
+                match assoc n (s_ctd s) with
+                | Some p => getattr s n p
+                | None =>
+                    match prefix_trait pt s n false with
+                    | inl (p, s') => getattr s' n p
+                    | inr e => out s n (Raise e)
+                    end
+                end
+            end
+        end
+    | OSet n v =>
+        match lookup_set pt s n with
+        | inl (p, s') => setattr s' n p v
+        | inr e => out s n (Raise e)
+        end
+    | ODel n =>
+        match lookup_set pt s n with
+        | inl (p, s') => delattr s' n p
+        | inr e => out s n (Raise e)
+        end
+    | OAdd n p => out (mkState (s_ctd s) (aset n p (s_itd s)) (s_od s)) n Done
+    | ORem n =>
+        match assoc n (s_itd s) with
+        | Some _ => out (mkState (s_ctd s) (adel n (s_itd s)) (adel n (s_od s))) n (Val 1)
+        | None => if amem n (s_ctd s) then out (set_od s (adel n (s_od s))) n (Val 0) else out s n (Val 0)
+        end
+    end.
+
+  Definition law_next0 (ls : lstate) (o : op) (ob : obs) : lstate :=
+    let n := op_name o in
+    let itd := match o, o_out ob with
+               | OAdd _ p, Done => aset n p (l_itd ls)
+               | ORem _, Val _ => adel n (l_itd ls)
+               | _, _ => l_itd ls
+               end in
+    mkL itd (match o_stored ob with Some v => aset n v (l_od ls) | None => adel n (l_od ls) end).
+
+  Lemma gov_plain : forall s ls, Inv s ls -> forall n p, gov s n = RPol p -> plainp p = true.
+  Proof.
+    intros s ls HI n p. destruct (inv_plain4 _ _ HI) as (P1 & P2 & P3 & P4). unfold gov.
+    destruct (assoc n (s_itd s)) eqn:E; [intro H; inversion H; subst; exact (plain_assoc _ _ _ P3 E)|].
+    intro H. eapply model_rule_plain; eauto. left. exact H.
+  Qed.
+
+  Lemma rel_plain : forall s ls, Inv s ls -> forall n p, rel (gov s n) p -> plainp p = true.
+  Proof. intros s ls HI n p [E|[_ ->]]; [eapply gov_plain; eauto|reflexivity]. Qed.
+
+  Lemma demand_m_plain : forall ls g p sb o, rel g p -> plainp p = true -> demand_m model_rule ls g sb o = demand g sb o.
+  Proof. intros ls g p sb o [->|[-> ->]] H; [destruct p; try discriminate H|]; reflexivity. Qed.
+
   Lemma access_handler : forall s ls o p, is_access o = true -> Inv s ls -> rel (gov s (op_name o)) p ->
     (forall n, o = OGet n -> assoc n (s_od s) = None) ->
     law_step model_rule ls o (snd (handler o s p)) = [] /\
-    Inv (fst (handler o s p)) (law_next ls o (snd (handler o s p))).
+    Inv (fst (handler o s p)) (law_next0 ls o (snd (handler o s p))).
   Proof.
-    intros s ls o p Ha HI Hr Hg. split.
+    intros s ls o p Ha HI Hr Hg. pose proof (rel_plain _ _ HI _ _ Hr) as Hpl. split.
     - unfold law_step. rewrite (governing_gov _ _ _ HI), (inv_od _ _ HI).
+      rewrite (demand_m_plain ls _ p _ o Hr Hpl).
       destruct o as [n|n v|n|n q|n]; try discriminate; simpl op_name in *.
       + rewrite (Hg n eq_refl). pose proof (getattr_ok s n p _ Hr (Hg n eq_refl)) as [A B].
         simpl handler. destruct (demand (gov s n) None (OGet n)) as [w ws] eqn:E.
@@ -417,11 +534,11 @@ Section Run.
         destruct (demand (gov s n) (assoc n (s_od s)) (ODel n)) as [w ws]. simpl in A, B, D.
         apply chk3_nil; auto.
     - destruct (handler_keeps o s p Ha) as (Ki & Kc & Ks).
-      assert (E : law_next ls o (snd (handler o s p)) =
+      assert (E : law_next0 ls o (snd (handler o s p)) =
                   mkL (l_itd ls) (match assoc (op_name o) (s_od (fst (handler o s p))) with
                                   | Some v => aset (op_name o) v (l_od ls)
                                   | None => adel (op_name o) (l_od ls) end)).
-      { unfold law_next. rewrite Ks. destruct o; try discriminate; reflexivity. }
+      { unfold law_next0. rewrite Ks. destruct o; try discriminate; reflexivity. }
       rewrite E. apply Inv_resync with (s := s); auto.
       + intros m Hm. apply handler_frame; auto.
       + intros v Hv. eapply handler_stores; eauto. intros v0 Hv0. eapply inv_st; eauto.
@@ -430,18 +547,20 @@ Section Run.
   Lemma gov_ctd_ext : forall s s1 n m, ctd_ext s s1 n -> gov s1 m = gov s m.
   Proof. intros s s1 n m (_ & Hi & _). unfold gov. rewrite Hi. reflexivity. Qed.
 
-  Lemma step_ok : forall s ls o, Inv s ls -> clean_step s o = true ->
-    law_step model_rule ls o (snd (step pt s o)) = [] /\
-    Inv (fst (step pt s o)) (law_next ls o (snd (step pt s o))).
+  Lemma step_ok0 : forall s ls o, Inv s ls -> clean_step s o = true ->
+    law_step model_rule ls o (snd (step_p s o)) = [] /\
+    Inv (fst (step_p s o)) (law_next0 ls o (snd (step_p s o))).
   Proof.
     intros s ls o HI Hc. destruct o as [n|n v|n|n q|n].
     - (* Get *)
-      simpl step. destruct (assoc n (s_od s)) as [v|] eqn:Eo.
+      simpl step_p. destruct (assoc n (s_od s)) as [v|] eqn:Eo.
       + (* value in obj.__dict__ *)
         pose proof (inv_st _ _ HI _ _ Eo) as Hst. split.
         * unfold law_step. rewrite (governing_gov _ _ _ HI), (inv_od _ _ HI). simpl op_name. rewrite Eo.
-          destruct (gov s n) as [[]| |]; simpl in Hst; try discriminate; simpl; rewrite Z.eqb_refl; reflexivity.
-        * unfold out, law_next; simpl. rewrite Eo.
+          destruct (gov s n) as [p| |] eqn:Eg; simpl in Hst; try discriminate;
+            [pose proof (gov_plain _ _ HI _ _ Eg) as Hp; destruct p; simpl in Hst, Hp; try discriminate|];
+            simpl; rewrite Z.eqb_refl; reflexivity.
+        * unfold out, law_next0; simpl. rewrite Eo.
           replace (mkL (l_itd ls) (aset n v (l_od ls))) with
             (mkL (l_itd ls) (match assoc n (s_od s) with Some v => aset n v (l_od ls) | None => adel n (l_od ls) end))
             by (rewrite Eo; reflexivity).
@@ -462,7 +581,7 @@ Section Run.
                 split.
                 ** unfold law_step. rewrite (governing_gov _ _ _ HI), (inv_od _ _ HI). simpl op_name.
                    rewrite Hg. unfold model_rule. rewrite H0, Ed, Eo. reflexivity.
-                ** unfold out, law_next; simpl. rewrite Eo.
+                ** unfold out, law_next0; simpl. rewrite Eo.
                    replace (mkL (l_itd ls) (adel n (l_od ls))) with
                      (mkL (l_itd ls) (match assoc n (s_od s) with Some v => aset n v (l_od ls) | None => adel n (l_od ls) end))
                      by (rewrite Eo; reflexivity).
@@ -480,13 +599,13 @@ Section Run.
                 ** split.
                    --- unfold law_step. rewrite (governing_gov _ _ _ HI), (inv_od _ _ HI). simpl op_name.
                        rewrite Hg. unfold model_rule. rewrite H0, Ed, Ef. reflexivity.
-                   --- unfold out, law_next; simpl. rewrite Eo.
+                   --- unfold out, law_next0; simpl. rewrite Eo.
                        replace (mkL (l_itd ls) (adel n (l_od ls))) with
                          (mkL (l_itd ls) (match assoc n (s_od s) with Some v => aset n v (l_od ls) | None => adel n (l_od ls) end))
                          by (rewrite Eo; reflexivity).
                        apply Inv_resync with (s := s); auto; intros v0 Hv; rewrite Eo in Hv; discriminate.
     - (* Set *)
-      simpl step. destruct (lookup_set pt s n) as [[p s1]|e] eqn:El.
+      simpl step_p. destruct (lookup_set pt s n) as [[p s1]|e] eqn:El.
       + destruct (lookup_set_inl _ _ _ _ _ HI El) as [Hr Hx].
         apply (access_handler s1 ls (OSet n v) p); auto.
         * eapply Inv_ctd_ext; eauto.
@@ -494,10 +613,10 @@ Section Run.
         * intros n0 E. discriminate.
       + pose proof (lookup_set_inr _ _ _ _ HI El) as Hn. split.
         * unfold law_step. rewrite (governing_gov _ _ _ HI). simpl op_name. rewrite Hn. reflexivity.
-        * unfold out, law_next; simpl.
+        * unfold out, law_next0; simpl.
           apply Inv_resync with (s := s); auto; intros v0 Hv; eapply inv_st; eauto.
     - (* Del *)
-      simpl step. destruct (lookup_set pt s n) as [[p s1]|e] eqn:El.
+      simpl step_p. destruct (lookup_set pt s n) as [[p s1]|e] eqn:El.
       + destruct (lookup_set_inl _ _ _ _ _ HI El) as [Hr Hx].
         apply (access_handler s1 ls (ODel n) p); auto.
         * eapply Inv_ctd_ext; eauto.
@@ -505,9 +624,11 @@ Section Run.
         * intros n0 E. discriminate.
       + pose proof (lookup_set_inr _ _ _ _ HI El) as Hn. split.
         * unfold law_step. rewrite (governing_gov _ _ _ HI). simpl op_name. rewrite Hn. reflexivity.
-        * unfold out, law_next; simpl.
+        * unfold out, law_next0; simpl.
           apply Inv_resync with (s := s); auto; intros v0 Hv; eapply inv_st; eauto.
     - (* add_trait *)
+      simpl in Hc. apply andb_true_iff in Hc. destruct Hc as [Hq Hc].
+      destruct (inv_plain4 _ _ HI) as (P1 & P2 & P3 & P4).
       split; [reflexivity|]. simpl. constructor; simpl.
       + rewrite (inv_itd _ _ HI). reflexivity.
       + intro m. destruct (assoc n (s_od s)) as [v|] eqn:Eo; rewrite ?assoc_aset, ?assoc_adel.
@@ -518,43 +639,50 @@ Section Run.
       + apply (inv_c1 _ _ HI).
       + apply (inv_c2 _ _ HI).
       + intros m v Hm. unfold gov. simpl. rewrite assoc_aset. destruct (name_eqb n m) eqn:E.
-        * apply name_eqb_eq in E. subst m. simpl in Hc. unfold amem in Hc. rewrite Hm in Hc.
+        * apply name_eqb_eq in E. subst m. unfold amem in Hc. rewrite Hm in Hc.
           simpl in Hc. rewrite orb_false_r in Hc. exact Hc.
         * fold (gov s m). eapply inv_st; eauto.
+      + apply plain4; auto. apply plain_aset; auto.
     - (* remove_trait *)
-      simpl step. destruct (assoc n (s_itd s)) as [p|] eqn:Ei.
-      + split.
-        * unfold law_step. simpl. unfold amem. rewrite (inv_itd _ _ HI), Ei. reflexivity.
-        * unfold out, law_next; simpl. rewrite assoc_adel, name_eqb_refl. constructor; simpl.
+      simpl step_p. destruct (assoc n (s_itd s)) as [p|] eqn:Ei.
+      + destruct (inv_plain4 _ _ HI) as (P1 & P2 & P3 & P4).
+        pose proof (plain_assoc _ _ _ P3 Ei) as Hp.
+        split.
+        * unfold law_step. simpl. unfold amem. rewrite (inv_itd _ _ HI), Ei.
+          rewrite assoc_adel, name_eqb_refl. destruct p; try discriminate Hp; reflexivity.
+        * unfold out, law_next0; simpl. rewrite assoc_adel, name_eqb_refl. constructor; simpl.
           -- rewrite (inv_itd _ _ HI). reflexivity.
           -- intro m. rewrite !assoc_adel. destruct (name_eqb n m); auto. apply (inv_od _ _ HI).
           -- apply (inv_c1 _ _ HI).
           -- apply (inv_c2 _ _ HI).
           -- intros m v Hm. rewrite assoc_adel in Hm. unfold gov; simpl. rewrite assoc_adel.
              destruct (name_eqb n m); [discriminate|]. fold (gov s m). eapply inv_st; eauto.
-      + assert (Hl : law_step model_rule ls (ORem n) (mkObs (Val 0) None) = [] /\
-                     forall st, law_step model_rule ls (ORem n) (mkObs (Val 0) st) = []).
-        { unfold law_step. simpl. unfold amem. rewrite (inv_itd _ _ HI), Ei. auto. }
+          -- apply plain4; auto. apply plain_adel; auto.
+      + destruct (inv_plain4 _ _ HI) as (P1 & P2 & P3 & P4).
+        assert (Hl : forall a b c, law_step model_rule ls (ORem n) (mkObs (Val 0) a b c) = []).
+        { intros a b c. unfold law_step. simpl. unfold amem. rewrite (inv_itd _ _ HI), Ei. auto. }
         assert (Hgov : forall s2, s_itd s2 = s_itd s -> forall m, gov s2 m = gov s m)
           by (intros s2 E m; unfold gov; rewrite E; reflexivity).
         destruct (amem n (s_ctd s)); (split; [apply Hl|]).
-        * unfold out, law_next; simpl. rewrite assoc_adel, name_eqb_refl. constructor; simpl.
+        * unfold out, law_next0; simpl. rewrite assoc_adel, name_eqb_refl. constructor; simpl.
           -- rewrite (inv_itd _ _ HI). apply adel_absent; auto.
           -- intro m. rewrite !assoc_adel. destruct (name_eqb n m); auto. apply (inv_od _ _ HI).
           -- apply (inv_c1 _ _ HI).
           -- apply (inv_c2 _ _ HI).
           -- intros m v Hm. rewrite assoc_adel in Hm. rewrite Hgov by reflexivity.
              destruct (name_eqb n m); [discriminate|]. eapply inv_st; eauto.
-        * unfold out, law_next; simpl.
+          -- apply plain4; auto.
+        * unfold out, law_next0; simpl.
           replace (adel n (l_itd ls)) with (l_itd ls)
             by (symmetry; apply adel_absent; rewrite (inv_itd _ _ HI); auto).
           apply Inv_resync with (s := s); auto; intros v0 Hv; eapply inv_st; eauto.
   Qed.
 
-  Lemma Inv_init : Inv (init_state ct0) l_init.
+  Lemma Inv_init : plain_tab ct0 = true -> plain_tab pt = true -> Inv (init_state ct0) l_init.
   Proof.
-    constructor; simpl; auto; try discriminate.
-    intros m p H. left. unfold model_rule. rewrite H. reflexivity.
+    intros P1 P2. constructor; simpl; auto; try discriminate.
+    - intros m p H. left. unfold model_rule. rewrite H. reflexivity.
+    - rewrite P1, P2. reflexivity.
   Qed.
 
   Lemma run_law_inv : forall ops s ls i, Inv s ls -> clean_run s ops = true ->
@@ -836,7 +964,7 @@ Section Clauses.
       destruct (assoc n (s_ctd s)) as [p|]; [destruct p; reflexivity|].
       destruct (dunder n); [simpl; auto|]. destruct (first_match n pt) as [[q p]|]; [destruct p; reflexivity|simpl; auto].
     - assert (H : forall s1 p, o_stored (snd (setattr s1 n p v)) = assoc n (s_od (fst (setattr s1 n p v)))).
-      { intros s1 p. destruct p as [ |d| |d|c|k|k d]; simpl; auto.
+      { intros s1 p. destruct p as [ |d| |d|c|k|k d|m d|m]; simpl; auto.
         - destruct (negb (Z.eqb d VUndef)); [reflexivity|].
           destruct (assoc n (s_od s1)) as [w|]; [destruct (Z.eqb w VUndef)|]; reflexivity.
         - destruct k as [k|]; [destruct (validate k v)|]; reflexivity.
@@ -866,7 +994,7 @@ Section Clauses.
       destruct (assoc n (s_ctd s)) as [p|]; [destruct p; reflexivity|].
       destruct (dunder n); [reflexivity|]. destruct (first_match n pt) as [[q p]|]; [destruct p; reflexivity|reflexivity].
     - assert (H : forall s1 p, s_itd (fst (setattr s1 n p v)) = s_itd s1).
-      { intros s1 p. destruct p as [ |d| |d|c|k|k d]; simpl; auto.
+      { intros s1 p. destruct p as [ |d| |d|c|k|k d|m d|m]; simpl; auto.
         - destruct (negb (Z.eqb d VUndef)); [reflexivity|].
           destruct (assoc n (s_od s1)) as [w|]; [destruct (Z.eqb w VUndef)|]; reflexivity.
         - destruct k as [k|]; [destruct (validate k v)|]; reflexivity.
